@@ -23,7 +23,7 @@ modal_mark_expression: (MODAL_MARK CONDITION_EXPRESSION) -> single_requirement_i
 prefix_operator_expression: PREFIX_OPERATOR CONDITION_EXPRESSION -> single_requirement_indicator_expression
 requirement_indicator: PREFIX_OPERATOR | MODAL_MARK
 PREFIX_OPERATOR: "X"i | "O"i | "U"i
-MODAL_MARK: /M(uss)?|S(oll)?|K(ann)?/i
+MODAL_MARK: /[Mm]([Uu][Ss][Ss])?|[Ss]([Oo][Ll][Ll])?|[Kk]([Aa][Nn][Nn])?/
 // Matches if it looks like a condition expression, but does not yet check if it is a syntactically valid one:
 CONDITION_EXPRESSION: /(?!\BU\B)[\[\]\(\)U∧O∨X⊻\d\sP\.UB]+/i
 """
